@@ -497,7 +497,7 @@ op('qr:rankdef', _gen_qr_rankdef, lambda a: algopy.qr(a[0]), None, tags=('linalg
 
 def _gen_qr_eps(rng, D, P, tier):
     # wide matrices with small (but accepted) pivots in R_0 and an explicit rank threshold; some higher coefficient is large
-    m, n = rng.choice([(3, 4), (2, 3), (3, 5)])
+    m, n = rng.choice([(3, 4), (3, 4), (2, 3), (3, 5)])
     x = rand_coeffs(rng, (D, P, m, n), -1, 1)
     for p in range(P):
         Q0 = rand_orth(rng, m)
@@ -507,6 +507,8 @@ def _gen_qr_eps(rng, D, P, tier):
         x[0, p] = Q0 @ R0
     if D >= 2:
         x[rng.randrange(1, D)] *= 32.0
+    if D >= 3:
+        x[D - 1] *= 32.0         # the last coefficient is always large: every shorter truncation drops it
     return [U(x)]
 
 
@@ -518,6 +520,45 @@ def _gen_qr_wide(rng, D, P, tier):
 
 op('qr:wide', _gen_qr_wide, lambda a: algopy.qr(a[0]), lambda z: np.linalg.qr(z[0]), tags=('linalg', 'factor'))
 op('qr:eps', _gen_qr_eps, lambda a: UTPM.qr(a[0], epsilon=2.0 ** -7), None, tags=('linalg', 'factor'))
+
+
+def _gen_svd(rng, D, P, tier, scale=1.0):
+    """matrices with distinct, well separated singular values in every direction"""
+    m, n = rng.choice([(2, 2), (3, 3), (3, 2), (2, 3)])
+    x = rand_coeffs(rng, (D, P, m, n), -1, 1)
+    for p in range(P):
+        Um, Vm = rand_orth(rng, m), rand_orth(rng, n)
+        k = min(m, n)
+        sv = sorted(rng.sample([0.5, 1.0, 2.0, 3.0, 4.5], k), reverse=True)
+        S_ = np.zeros((m, n))
+        S_[:k, :k] = np.diag(sv)
+        x[0, p] = Um @ S_ @ Vm.T
+    return [U(x * scale)]
+
+
+op('svd', _gen_svd, lambda a: algopy.svd(a[0]), None, tags=('linalg', 'factor'))
+# data of order 2^-34 with the documented threshold keyword scaled accordingly (power-of-two scaling is exact)
+op('svd:eps', lambda rng, D, P, t: _gen_svd(rng, D, P, t, 2.0 ** -34), lambda a: algopy.svd(a[0], epsilon=1e-8 * 2.0 ** -34), None,
+   tags=('linalg', 'factor'))
+
+
+def _gen_eigh_closegap(rng, D, P, tier):
+    """symmetric matrices with two close but distinct eigenvalues (gap 1e-5, far above the threshold 1e-8) and large
+    coefficients of order >= 2: whether two eigenvalues count as repeated is decided by the zeroth coefficient alone"""
+    n = rng.choice([2, 3])
+    x = rand_coeffs(rng, (D, P, n, n), -1, 1)
+    for p in range(P):
+        Q = rand_orth(rng, n)
+        lam = [1.0, 1.0 + 1e-5] + ([3.0] if n == 3 else [])
+        x[0, p] = Q @ np.diag(lam) @ Q.T
+    x[2:] *= 2.0 ** 14
+    for d in range(D):
+        for p in range(P):
+            x[d, p] = (x[d, p] + x[d, p].T) / 2
+    return [U(x)]
+
+
+op('eigh:closegap', _gen_eigh_closegap, lambda a: algopy.eigh(a[0]), None, tags=('linalg', 'factor'))
 
 
 def _gen_eigh_mixed(rng, D, P, tier):
